@@ -298,7 +298,8 @@ def check_case(case):
 
 
 def _lifted_under_forall(case, fail):
-    return fail["clause"] == "precondition-literals-under-forall" and "forall" in case.get("tags", [])
+    # the clause is only raised when the reported literals equal the expected ones with the literals under a forall left lifted
+    return fail["clause"] == "precondition-literals-under-forall" and "forall" in case.get("pre", "")
 
 
 MATCHERS = {"lifted_under_forall": _lifted_under_forall}
